@@ -8,12 +8,12 @@ WHAT = 'workRemaining_ is zero whenever all submitted work is done and every wor
 def run(ctx):
     thorough = ctx.tier == 'thorough'
     ctx.check_model(pc.SPEC, 'MCPool.tla', 'MC_q2_c08.cfg', WHAT, label='ring submission, then a resize that may drain the ring itself',
-                    workers=6, vacuity_exempt=VAC, timeout=900)
+                    workers=6, required=('RbPushRing', 'TpRzDrainRing', 'TpDecWorkRz', 'GateQuiet', 'TpWkFlushFinal'), timeout=900)
     if thorough:
         ctx.check_model(pc.SPEC, 'MCPool.tla', 'MC_q_c08.cfg', WHAT, label='2 workers, 2 ring tasks, shrinking resize', workers=12,
-                        vacuity_exempt=VAC, timeout=3000, heap='16g')
+                        required=('RbPushRing', 'TpRzDrainRing', 'TpDecWorkRz', 'GateQuiet', 'TpWkFlushFinal'), timeout=3000, heap='16g')
     exe = pc.build(ctx, 2)
-    progs = ['main:new2,idle,rbulk1.2,sync,quiet,del;p2:up,resize1', 'main:new2,fq1,bulk2.2,quiet,sched4,quiet,del',
+    progs = ['main:new2,idle,rbulk1.2,quiet,pfq3,placed4,quiet,del', 'main:new2,idle,rbulk1.2,sync,quiet,del;p2:up,resize1', 'main:new2,fq1,bulk2.2,quiet,sched4,quiet,del',
              'main:new3,rbulk1.3,quiet,resize1,fq4,quiet,resize2,rbulk5.2,quiet,del',
              'main:new2,up,rbulk1.2,sync,quiet,del;p2:up,resize2,resize0,resize2']
     if thorough:
